@@ -43,6 +43,7 @@ type FuncSpec struct {
 	FeedsOnly []*FeedsClause // "feeds_unchanged T into f, g": every field of T read here flows, unchanged, only into calls of f / g
 	ReturnsFresh bool        // "returns_fresh": result 0 is always an object allocated by this call (or by a callee with the same clause), never one that existed before
 	NoStoreThrough []string  // "no_store_through T [except f1, f2]": nothing reachable from here writes memory reached through a *T (shared, long-lived data)
+	DebugOnly []DebugOnlyClause // "debug_only T.f writes a, b": the flag only guards branches whose effects are confined to the named fields/variables
 	ControlOnly []string     // "control_only T.f, T.g": those fields only ever decide branches, here and in everything reachable in the package
 	Trusted   bool
 	MayPanic  bool
@@ -85,6 +86,15 @@ type PureFunc struct {
 type ParamDecl struct {
 	Name string
 	Type string
+}
+
+// DebugOnlyClause: "debug_only T.f writes n1, n2": field T.f (a bool) only ever
+// decides branches, and the code that runs only because of such a branch
+// stores to nothing but fields / local variables with the listed names, calls
+// nothing but formatting functions, and leaves the control flow alone.
+type DebugOnlyClause struct {
+	Field  string // "T.f"
+	Writes []string
 }
 
 type Axiom struct {
@@ -171,7 +181,7 @@ func NewSpecFile() *SpecFile {
 }
 
 var clauseKeywords = map[string]bool{"requires": true, "ensures": true, "invariant": true, "decreases": true,
-	"assigns": true, "preserves": true, "guard": true, "order": true, "reads_fields": true, "control_only": true, "feeds_unchanged": true, "returns_fresh": true, "no_store_through": true, "loop": true, "may_panic": true, "dead_return": true, "state_axiom": true, "trusted": true, "pure": true, "abstract": true, "axiom": true,
+	"assigns": true, "preserves": true, "guard": true, "order": true, "reads_fields": true, "control_only": true, "feeds_unchanged": true, "returns_fresh": true, "no_store_through": true, "loop": true, "may_panic": true, "dead_return": true, "state_axiom": true, "debug_only": true, "trusted": true, "pure": true, "abstract": true, "axiom": true,
 	"func": true, "lemma": true, "noinline": true, "opaque": true, "flag": true, "let": true, "may_panic_at": true, "extends": true, "foreach_field": true, "ghost": true, "assert": true}
 
 // ParseSpecFile reads //@ lines from path and adds them to sf.
@@ -402,6 +412,20 @@ func (sf *SpecFile) ParseSpecFile(path string) error {
 				}
 				curLoop = nil
 				cur.FeedsOnly = append(cur.FeedsOnly, fc)
+			case "debug_only":
+				txt := strings.TrimSpace(r.text)
+				fld, ws, ok := strings.Cut(txt, " writes ")
+				if !ok {
+					return fmt.Errorf("%s: debug_only needs 'T.f writes name, name'", loc)
+				}
+				dc := DebugOnlyClause{Field: strings.TrimSpace(fld)}
+				for _, w := range strings.Split(ws, ",") {
+					if w = strings.TrimSpace(w); w != "" {
+						dc.Writes = append(dc.Writes, w)
+					}
+				}
+				cur.DebugOnly = append(cur.DebugOnly, dc)
+				curLoop = nil
 			case "control_only":
 				for _, part := range strings.Split(r.text, ",") {
 					if t := strings.TrimSpace(part); t != "" {
